@@ -55,19 +55,19 @@
     __CPROVER_assigns(v->d, v->n); \
   void V##__ctor_1(V *v, unsigned long n) \
     __CPROVER_requires(n <= VEC_CAP) \
-    __CPROVER_ensures(v->n == n && (n == 0 || __CPROVER_is_fresh(v->d, n * sizeof(T)))) \
+    __CPROVER_ensures(v->n == n && __CPROVER_is_fresh(v->d, (n == 0 ? 1 : n) * sizeof(T))) \
     __CPROVER_assigns(v->d, v->n); \
   void V##__ctor_2(V *v, unsigned long n, const T *x) \
     __CPROVER_requires(n <= VEC_CAP) \
-    __CPROVER_ensures(v->n == n && (n == 0 || __CPROVER_is_fresh(v->d, n * sizeof(T)))) \
+    __CPROVER_ensures(v->n == n && __CPROVER_is_fresh(v->d, (n == 0 ? 1 : n) * sizeof(T))) \
     __CPROVER_assigns(v->d, v->n); \
   void V##__ctor_copy(V *v, const V *o) \
     __CPROVER_requires(o->n <= VEC_CAP) \
-    __CPROVER_ensures(v->n == o->n && (v->n == 0 || __CPROVER_is_fresh(v->d, v->n * sizeof(T)))) \
+    __CPROVER_ensures(v->n == o->n && __CPROVER_is_fresh(v->d, (v->n == 0 ? 1 : v->n) * sizeof(T))) \
     __CPROVER_assigns(v->d, v->n); \
   void V##__resize(V *v, unsigned long n) \
     __CPROVER_requires(n <= VEC_CAP) \
-    __CPROVER_ensures(v->n == n && (n == 0 || __CPROVER_is_fresh(v->d, n * sizeof(T)))) \
+    __CPROVER_ensures(v->n == n && __CPROVER_is_fresh(v->d, (n == 0 ? 1 : n) * sizeof(T))) \
     __CPROVER_assigns(v->d, v->n);
 #endif
 #define VEC_FRESH(v) ((v)->n <= VEC_CAP && ((v)->n == 0 || __CPROVER_is_fresh((v)->d, (v)->n * sizeof(*(v)->d))))
